@@ -4,6 +4,8 @@ Nothing here draws randomness by itself (generators receive the run's PRNG) and
 nothing reads raw hash() values, real id()s or clocks.
 """
 import datetime as _dt
+import decimal as _dec
+import fractions as _frac
 import math
 
 # ----------------------------------------------------------------------------
@@ -29,6 +31,10 @@ def enc(v):
         return {"d": v.isoformat()}
     if isinstance(v, (list, tuple)):
         return {"l": [enc(x) for x in v]}
+    if isinstance(v, _dec.Decimal):
+        return {"dec": str(v)}
+    if isinstance(v, _frac.Fraction):
+        return {"frac": [v.numerator, v.denominator]}
     raise TypeError("cannot encode %r" % (type(v),))
 
 
@@ -44,6 +50,10 @@ def dec(j):
             return _dt.date.fromisoformat(j["d"])
         if "l" in j:
             return [dec(x) for x in j["l"]]
+        if "dec" in j:
+            return _dec.Decimal(j["dec"])
+        if "frac" in j:
+            return _frac.Fraction(j["frac"][0], j["frac"][1])
         raise ValueError("bad encoded value %r" % (j,))
     return j
 
@@ -78,10 +88,13 @@ POOLS = {
     "str": ["a", "b", "A", " a ", "", "zz"],
     "date": [D1, D2, D3],
     "datetime": [DT1, DT2, DT3, DT4],
+    # "arbitrary other classes": uniform columns of these report their own type, mixtures degrade to object
+    "decimal": [_dec.Decimal("1.10"), _dec.Decimal("2"), _dec.Decimal("-0.5")],
+    "fraction": [_frac.Fraction(1, 3), _frac.Fraction(2, 1), _frac.Fraction(-1, 2)],
 }
 RARE = {
     "int": [BIG],
-    "float": [float("nan"), float("inf")],
+    "float": [float("nan"), float("inf"), float("-inf")],
 }
 KINDS = ["int", "float", "str", "bool", "date", "complex", "datetime"]
 KIND_W = [30, 18, 18, 10, 8, 4, 6]
@@ -155,6 +168,8 @@ def tv(e):
         return (t.__name__, e.isoformat())
     if isinstance(e, (list, tuple)):
         return (t.__name__, tuple(tv(x) for x in e))
+    if t in (_dec.Decimal, _frac.Fraction):
+        return (t.__name__, repr(e))
     # serif objects nested as elements are described by the caller; anything else
     # by type name only (its repr could embed an address)
     return (t.__name__, "<obj>")
